@@ -24,6 +24,12 @@ module Nat :
 
 val remove : ('a1 -> 'a1 -> bool) -> 'a1 -> 'a1 list -> 'a1 list
 
+val flat_map : ('a1 -> 'a2 list) -> 'a1 list -> 'a2 list
+
+val existsb : ('a1 -> bool) -> 'a1 list -> bool
+
+val firstn : nat -> 'a1 list -> 'a1 list
+
 type positive =
 | XI of positive
 | XO of positive
@@ -217,13 +223,13 @@ val snd0 : hst -> sndr
 val init : st
 
 type aux = { started : bool; ract : nat; hof : (nat -> nat); ph : nat;
-             opk : (nat -> z); qt : z; qh : z }
+             opk : (nat -> z); qt : z; qh : z; nb : nat }
 
 val aux0 : aux
 
 type ast = st * aux
 
-val m_init : ast
+val a_init : ast
 
 val set_ract : aux -> nat -> aux
 
@@ -234,6 +240,8 @@ val set_ph : aux -> nat -> aux
 val set_opk : aux -> (nat -> z) -> aux
 
 val set_qt : aux -> z -> aux
+
+val set_nb : aux -> nat -> aux
 
 val set_qh : aux -> z -> aux
 
@@ -275,12 +283,22 @@ val plan_ev : st -> aux -> z list -> plan option
 
 val accept_ev : ast -> z list -> ast option
 
+val branch : ast -> z list -> ast list
+
+val accept1 : z list -> ast -> ast list
+
+val accept_evm : ast list -> z list -> ast list option
+
+val m_initm : ast list
+
 val vals_eqb : val0 list -> val0 list -> bool
 
 val monitors_ok : ast -> bool
 
-val m_init0 : ast
+val monitors_okm : ast list -> bool
 
-val m_accept : ast -> z list -> ast option
+val m_init : ast list
 
-val m_final : ast -> bool
+val m_accept : ast list -> z list -> ast list option
+
+val m_final : ast list -> bool
